@@ -29,4 +29,5 @@ pub fn param_from_iso2(t: &Iso2) -> T2Storage {
 #[cfg(feature = "verif")]
 pub mod verif {
     pub use super::jacobian::point_surface_jacobian;
+    pub use super::points_to_curve::verif::{take_trace, Probe2};
 }
